@@ -1,8 +1,21 @@
 """C16 -- lifecycle family; see harness/props/_life.py (co-simulation of coq/theories/Life/Model.v
-against the real Nextline + scenario families + the C16 oracle of harness/life_oracles.py)."""
+against the real Nextline + scenario families + the C16 oracle of harness/life_oracles.py).
+
+Second tie (checked on every run): translate/continuous_skeleton.py regenerates Gen/ContinuousSkel.v
+(every method of Continue / Continuous and the Nextline call sites as statement programs) from
+nextline/continuous.py + nextline/main.py; coq/theories/Life/ContTie.v interprets the programs and
+proves, for all environments, that they compute the Continuous functions of Life/Model.v
+(`C16_tie_*` in Props/C16.v)."""
 from . import _life
 
 PROP_FILES = ['Props/C16.v']
-TRUSTED_BASE = _life.TRUSTED_BASE
+TRANSLATORS = ['continuous_skeleton']     # Gen/ContinuousSkel.v is regenerated from continuous.py + main.py on every run
+TRUSTED_BASE = _life.TRUSTED_BASE + [
+    'translate/continuous_skeleton.py (ast -> the statement AST of Life/ContSyntax.v; fail-closed) and the semantics '
+    'Life/ContTie.v gives to that AST: Python try/except/finally propagation, asynccontextmanager (body at the yield, '
+    'exception thrown in), AsyncExitStack with try/finally-shaped context managers, PubSubItem.publish raising once '
+    'closed; a Continue object is identified, as in the model, by (requesting task, _run_started); the ContextVar is '
+    'modelled as a per-context variable inherited by tasks created at an await',
+]
 ASSUMPTIONS = _life.ASSUMPTIONS
 correspond, search, replay = _life.make('C16')
